@@ -476,7 +476,7 @@ func genCase(rt *rapid.T) *Case {
 
 func TestC06(t *testing.T) {
 	run := ev.Start("C06", "exploration")
-	run.Rule("rapid-generated histories over 1-6 raw peers: connect (clean/persistent), DISCONNECT/drop, SUBSCRIBE with 1-4 (filter,QoS) pairs, UNSUBSCRIBE 1-3 filters, PUBLISH on 6 topics at QoS 0-2 with payload sizes {0,1,8,100,4096,65000}, optional concurrent phase; after every publish a two-marker barrier establishes quiescence and every online peer's inbox is compared with the subscription model (reference matcher). Ops that are not enabled in the model state are skipped and counted. non-trivial = a recipient holds >= 2 matching filters with different QoS, a SUBSCRIBE carries different QoS, a matching filter was re-subscribed/unsubscribed, offline-queued messages were resumed, or >= 2 concurrent publishers; distinct by case JSON")
+	run.Rule("rapid-generated histories over 1-6 raw peers: connect (clean/persistent), DISCONNECT/drop, SUBSCRIBE with 1-4 (filter,QoS) pairs, UNSUBSCRIBE 1-3 filters, PUBLISH on 6 topics at QoS 0-2 with payload sizes {0,1,8,100,4096,65000}, optional concurrent phase; after every publish a two-marker barrier establishes quiescence and every online peer's inbox is compared with the subscription model (reference matcher). Ops that are not enabled in the model state are skipped and counted. plus fan-out under back-pressure (session queue 1-3, window 1): a stalled subscriber that goes away while a publish waits behind it (2-12 healthy subscribers must still get every acknowledged message once), and a client filling its own queue (every acknowledged publish to its own subscription must be delivered to it). non-trivial = a recipient holds >= 2 matching filters with different QoS, a SUBSCRIBE carries different QoS, a matching filter was re-subscribed/unsubscribed, offline-queued messages were resumed, or >= 2 concurrent publishers; distinct by case JSON")
 	run.Assume("in-memory packet-framed transport; retained replays (retain=1) are ignored here and judged by C11; peers acknowledge everything")
 	defer run.Finish(t)
 
@@ -504,6 +504,16 @@ func TestC06(t *testing.T) {
 			rt.Fatalf("%s: %s", v.sig, v.msg)
 		}
 	})
+	run.Rapid(t, "pressure", ev.Pick(40, 4000), func(rt *rapid.T) {
+		c := genPressure(rt)
+		run.Eval(1)
+		run.Class("pressure=" + c.Kind)
+		run.NonTrivialJSON(c)
+		if v := runPressure(c); v != nil {
+			run.Candidate(v.sig, v.msg, c)
+			rt.Fatalf("%s: %s", v.sig, v.msg)
+		}
+	})
 	run.Set("ops_skipped_not_enabled", totalSkipped)
 	run.Set("retained_replays_ignored", totalRetained)
 	run.Set("publish_steps_checked", totalSteps)
@@ -517,6 +527,16 @@ func TestReplay(t *testing.T) {
 	}
 	if err != nil {
 		t.Fatal(err)
+	}
+	var pc Pressure
+	if _, _ = ev.ReplayCase(&pc); pc.Kind != "" {
+		for i := 0; i < 5; i++ {
+			if v := runPressure(&pc); v != nil {
+				t.Fatalf("VIOLATION reproduced: %s: %s", v.sig, v.msg)
+			}
+		}
+		t.Log("case passes")
+		return
 	}
 	for i := 0; i < 5; i++ {
 		if v := runCase(&c, &stats{}); v != nil {
